@@ -490,7 +490,8 @@ func (in *inst) rewriteChanRange(rs *ast.RangeStmt) ast.Stmt {
 			}
 		}
 	}
-	body = append(body, rs.Body.List...)
+	// the original body keeps its own scope (it may legally redeclare the loop variables)
+	body = append(body, &ast.BlockStmt{List: rs.Body.List})
 	return &ast.ForStmt{Body: &ast.BlockStmt{List: body}}
 }
 
@@ -552,7 +553,8 @@ func (in *inst) rewriteMapRange(rs *ast.RangeStmt, label *ast.Ident) ast.Stmt {
 			body = append(body, &ast.AssignStmt{Lhs: []ast.Expr{ast.NewIdent("_")}, Tok: token.ASSIGN, Rhs: []ast.Expr{rs.Value}})
 		}
 	}
-	body = append(body, rs.Body.List...)
+	// the original body keeps its own scope (it may legally redeclare the loop variables)
+	body = append(body, &ast.BlockStmt{List: rs.Body.List})
 	loop := &ast.RangeStmt{Key: ast.NewIdent("_"), Value: kID, Tok: token.DEFINE,
 		X:    rtCall("Order", &ast.BasicLit{Kind: token.INT, Value: n}, mID),
 		Body: &ast.BlockStmt{List: body}}
